@@ -31,7 +31,8 @@ import itertools
 import hashlib
 from fractions import Fraction
 
-sys.path.insert(0, os.path.dirname(os.path.dirname(os.path.abspath(__file__))))
+# OPTABLE_TTVC_ROOT: validate another copy of the engine (a directory containing ttvc/), e.g. a patched tree
+sys.path.insert(0, os.environ.get('OPTABLE_TTVC_ROOT') or os.path.dirname(os.path.dirname(os.path.abspath(__file__))))
 
 import z3                                                    # noqa: E402
 from ttvc import interp, tensors as T, optable as O, prover  # noqa: E402
@@ -1050,6 +1051,10 @@ def g_einsum(rng, tier):
     yield C('ext', 'torch.einsum', ['ii->i', A], A=([3, 3], F64))
     yield C('ext', 'torch.einsum', ['...i,ij->...j', A, B], A=([2], F64), B=([2, 3], F64))
     yield C('ext', 'torch.einsum', ['ij,jk->ik', [A, B]], A=([2, 3], F64), B=([3, 2], F64))
+    yield C('ext', 'torch.einsum', ['ij,jk,kl->il', A, B, Cc], A=([2, 3], F64), B=([2, 2], F64), C=([2, 2], F64))
+    yield C('ext', 'torch.einsum', ['ij,jk,kl->il', A, B, Cc], A=([2, 1], F64), B=([3, 2], F64), C=([2, 2], F64))
+    yield C('ext', 'torch.einsum', ['ik,j->ijk', A, B], A=([2, 3], F32), B=([2], F64))
+    yield C('ext', 'torch.einsum', ['ij,jk->ik', A, B], A=([2, 1], F32), B=([1, 2], F64))
     for eq in eqs:
         yield _einsum_case(rng, eq, 'bcast')
     if tier != 'quick':
@@ -1338,7 +1343,7 @@ def g_clone(rng, tier):
             yield C('method', rng.choice(['double', 'float']), [A], A=(shape, rng.choice([F64, F32, I64])))
 
 
-@gen('tensor/arange')
+@gen('tensor/arange', 19, 40)
 def g_tensor(rng, tier):
     yield C('ext', 'torch.tensor', [[[1, 2], [3, 4]]])
     yield C('ext', 'torch.tensor', [[1.5, 2]])
